@@ -253,6 +253,9 @@ def do_integer(m, rng, spec, conv, n):
         m.reject_write(conv, spec, bad, "wrong-python-type-accepted-on-write")
 
 
+BIG = decimal.Context(prec=200)
+
+
 def do_decimal(m, rng, spec, conv, n):
     _, scale, req = spec
     q = D(1).scaleb(-scale) if scale is not None else None
@@ -260,7 +263,9 @@ def do_decimal(m, rng, spec, conv, n):
     for _ in range(n):
         vals.append(values.gen_decimal(rng, q))
     if q is not None:
-        vals += [q, -q, D(0).quantize(q), (D(10) ** 12).quantize(q), (q * 999).quantize(q)]
+        vals += [q, -q, D(0).quantize(q), (D(10) ** 12).quantize(q), (q * 999).quantize(q),
+                 # more digits than the default arithmetic context carries (28): fixing the scale must not need them all at once
+                 (D(10) ** 30 + 7).quantize(q, context=BIG), (-(D(10) ** 34) - 1).quantize(q, context=BIG)]
     else:
         vals += [D("0"), D("-0.0"), D("1.50"), D("100"), D("0.000001"), D("123456789012.123456"),
                  # more significant digits than the default arithmetic context carries (28): reading must not round
@@ -286,7 +291,7 @@ def do_decimal(m, rng, spec, conv, n):
                 exact = R.parse_decimal(t)
             except (R.Reject, R.Unspecified):
                 continue
-            want = exact.quantize(q) if q is not None else exact
+            want = exact.quantize(q, context=BIG) if q is not None else exact
             m.ctx.distinct((spec, t))
             m.canonical(conv, spec, t, want=want, key_hint=("decimal/scale0-quantum" if scale == 0 else None))
     for t, want in (("-0.00", D("-0.00")), ("1234567890123456789012345678901234.5", D("1234567890123456789012345678901234.5")), ("-0", D("-0"))):
